@@ -79,6 +79,10 @@ func c02Honest(c c02Case, pd c02PD, signer int, aud string, nonce string, layout
 		creds = append(creds, cr)
 	}
 	main := r.newVP(c, signer, aud, nonce, creds...)
+	if c.Window == 1 {
+		// a valid presentation need not start at the moment it is presented: 5 s in total, 2 s of them already gone
+		main.Created, main.Expires = -2*time.Second, c02Ptr(3*time.Second)
+	}
 	switch layout {
 	case "extra_cred":
 		main.Creds = append(main.Creds, r.newCred(c, "unrelated", signer))
@@ -301,8 +305,13 @@ func c02ApplyPresentationDefect(c c02Case, r *c02Request, d c02Defect, aud strin
 		r.pickVP(d.Arg).Aud = nil
 	// --- validity (s2s) ---
 	case "validity_long":
-		e := []time.Duration{6 * time.Second, 10 * time.Second, time.Minute, time.Hour, 8760 * time.Hour, 7 * time.Second}[d.Arg%6]
-		r.pickVP(d.Arg).Expires = &e
+		// Ground truth (s2sMaxPresentationValidity, "excludes max. clock skew"): the TOTAL period expires-created exceeds
+		// 5 s => refused, wherever "now" lies inside the period. Both ends vary independently.
+		w := c02LongWindows[d.Arg%len(c02LongWindows)]
+		vp := r.pickVP(d.Arg / 3)
+		vp.Created = w.created
+		vp.Expires = c02Ptr(w.expires)
+		vp.IatOnly = w.iatOnly
 	case "validity_no_exp":
 		r.pickVP(d.Arg).Expires = nil
 	case "validity_stale":
@@ -338,6 +347,27 @@ func c02ApplyPresentationDefect(c c02Case, r *c02Request, d c02Defect, aud strin
 		return false
 	}
 	return true
+}
+
+// validity periods longer than the allowed 5 s, as offsets from the moment of presentation
+var c02LongWindows = []struct {
+	created, expires time.Duration
+	iatOnly          bool
+}{
+	// (shrinking moves towards the first entries: they are the ones whose verdict does not depend on how long the
+	// request takes to arrive)
+	{-time.Hour, 3 * time.Second, false},        // an hour of validity, presented in its last seconds
+	{-4 * time.Second, 3 * time.Second, false},  // 7 s in total, less than 5 s left
+	{0, time.Hour, false},                       // starts now, far too long
+	{0, 6 * time.Second, false},                 // starts now, a second too long
+	{-3 * time.Second, 3 * time.Second, false},  // 6 s in total
+	{2 * time.Second, time.Minute, false},       // starts in the future and is long
+	{-8760 * time.Hour, 4 * time.Second, false}, // a year, last seconds
+	{-time.Hour, 3 * time.Second, true},         // same, creation date in 'iat' (no 'nbf')
+	{-4 * time.Second, 3 * time.Second, true},
+	{0, 6 * time.Second, true},
+	{-10 * time.Minute, 2 * time.Second, false},
+	{-2 * time.Second, 8760 * time.Hour, false}, // both ends out
 }
 
 // order in which presentation defects are applied (structure first, options last)
